@@ -120,6 +120,20 @@ def register(c, rnd, s, lim, idx):
         else:
             ops.append({"c": "reg", "i": idx, "s": s, "lim": lim})     # (batches with removals are C08's; keep the member write plain)
             ops.append({"c": "regbatch", "i": 4, "ids": [], "rem": [3]} if idx != 4 else {"c": "del", "i": 3})
+    elif h == "swap-batch":
+        # the slot is vacated and reassigned to the member in ONE batch call
+        # (the byte-level batch entry point takes removal positions as single bytes: only positions <= 255)
+        if idx <= 255:
+            ops.append({"c": "setraw", "i": idx, "v": I(5)})
+            ops.append({"c": "regbatch", "i": idx, "ids": [[s, lim]], "rem": [idx]})
+        else:
+            ops.append({"c": "setraw", "i": 7, "v": I(5)})
+            ops.append({"c": "reg", "i": idx, "s": s, "lim": lim})
+            ops.append({"c": "regbatch", "i": 7, "ids": [[I(12), I(2)]], "rem": [7]})
+    elif h == "reopen":
+        # persistent location (the reset line asks for it): registered, then the node restarts
+        ops.append({"c": "reg", "i": idx, "s": s, "lim": lim})
+        ops.append({"c": "reopen"})
     else:
         ops.append({"c": "reg", "i": idx, "s": s, "lim": lim})
     if c.get("others") == "sparse":
@@ -146,7 +160,7 @@ def scen_c01(wd, rnd, n):
     cs, uncovered = pairwise(classes(wd)["PROVE"], n, rnd)
     sc = []
     for k, c in enumerate(cs):
-        sc.append({"c": "reset"})
+        sc.append({"c": "reset", "persist": c.get("hist") == "reopen"})
         s, e = fv_label(c["s"], rnd), fv_label(c["e"], rnd)
         limv = lim_label(c["lim"])
         midv = {"0": 0, "1": 1, "lim-1": limv - 1}[c["mid"]]
@@ -166,7 +180,13 @@ def scen_c01(wd, rnd, n):
             sc.append(prove_op(name + "b", c["entry"] if c["entry"] != "vector" else "tree", s, idx, I(limv), I(midv), e,
                                sig_label(c["sig"], rnd), cls=dict(c, again=True)))
             sc += verify_all(name + "b")
-    return sc, len(cs), uncovered
+    # one message with a signal above 1 MiB (signals are arbitrary byte strings)
+    sc.append({"c": "reset"})
+    s = {"k": "rnd", "s": rnd.randrange(1, 1 << 30)}
+    sc.append({"c": "reg", "i": 2, "s": s, "lim": I(10)})
+    sc.append(prove_op("huge", "tree", s, 2, I(10), I(3), {"k": "rnd", "s": 77}, {"len": (1 << 20) + 4097, "seed": 5}, cls={"sig": "1MiB+"}))
+    sc += verify_all("huge")[1:3]
+    return sc, len(cs) + 1, uncovered
 
 
 FIELD_NO = {"root": 0, "e": 1, "x": 2, "y": 3, "nul": 4}
@@ -186,7 +206,8 @@ def tamper_ops(name, t, siglen):
         h = t["how"]
         m = {"flip": [{"m": "sigflip", "at": 0}], "trunc": [{"m": "sigtrunc", "n": 1, "fixlen": True}],
              "extend-fix": [{"m": "sigext", "n": 1, "fixlen": True}], "extend-nofix": [{"m": "sigext", "n": 3}],
-             "len+1": [{"m": "siglen", "v": "+1"}], "len-1": [{"m": "siglen", "v": "-1"}], "len0": [{"m": "siglen", "v": "0"}]}[h]
+             "len+1": [{"m": "siglen", "v": "+1"}], "len-1": [{"m": "siglen", "v": "-1"}], "len0": [{"m": "siglen", "v": "0"}],
+             "len+2^32": [{"m": "siglen", "v": "+2^32"}], "len+2^63": [{"m": "siglen", "v": "+2^63"}]}[h]
         if siglen == 0 and h in ("flip", "trunc", "len-1", "len0"):
             return []
         return [dict(base, mods=m)]
@@ -204,9 +225,16 @@ def tamper_ops(name, t, siglen):
         post = [{"c": "RESTORE"}]
     elif tree == "changed-restored":
         pre = [{"c": "setraw", "i": 78, "v": I(5)}, {"c": "del", "i": 78}]
+    elif tree == "restarted":
+        pre = [{"c": "reopen"}]                      # the verifier restarts on its persistent location: same tree
+    elif tree == "restarted-member-deleted":
+        pre = [{"c": "reopen"}, {"c": "del", "i": "MEMBER"}]
+        post = [{"c": "RESTORE"}]
     if kind == "roots":
         base["roots"] = {"empty": [], "cur": ["cur"], "other": ["rnd"], "other+cur": ["rnd", "cur"], "stale": ["msg"],
                          "zero": ["zero"], "zeros": ["zero"] * 5, "zero+cur": ["zero", "cur"]}[roots]
+    if tree in ("member-deleted", "restarted-member-deleted") and (kind == "stateful" or (kind == "roots" and roots in ("cur", "zero+cur", "other+cur"))):
+        base["must"] = "reject"       # the current root cannot be the message's any more
     return pre + [base] + post
 
 
@@ -214,7 +242,7 @@ def scen_c02(wd, rnd, n_msgs, n_tampers):
     ts = classes(wd)["TAMPER"]
     sc = []
     for k in range(n_msgs):
-        sc.append({"c": "reset"})
+        sc.append({"c": "reset", "persist": True})    # a persistent location, so that the verifier can restart
         s = {"k": "rnd", "s": rnd.randrange(1, 1 << 30)}
         lim = I(rnd.choice([1, 100, 65536]))
         idx = rnd.choice([0, 5, (1 << 19) + 3, BIG - 1])
@@ -225,7 +253,16 @@ def scen_c02(wd, rnd, n_msgs, n_tampers):
         sc.append({"c": "reg", "i": idx, "s": s, "lim": lim})
         sc.append(prove_op(name, rnd.choice(["tree", "witness"]), s, idx, lim, I(0), {"k": "rnd", "s": rnd.randrange(1, 1 << 30)}, sig))
         sc += verify_all(name)
-        pick = ts if n_tampers >= len(ts) else rnd.sample(ts, n_tampers)
+        if n_tampers >= len(ts):
+            pick = ts
+        else:
+            # the classes are dealt out over the messages without replacement, so that one run covers every class
+            if k == 0:
+                deck = list(ts)
+                rnd.shuffle(deck)
+            share = -(-len(deck) // n_msgs)
+            pick = deck[k * share:(k + 1) * share]
+            pick += rnd.sample(ts, max(0, n_tampers - len(pick)))
         for t in pick:
             for op in tamper_ops(name, t, siglen):
                 if op.get("i") == "MEMBER":
@@ -253,7 +290,7 @@ def scen_c13(wd, rnd, quick):
                     continue
                 sc.append(dict({"c": "verify", "kind": kind, "msg": name, "mods": [{"m": "trunc", "len": n}], "tag": f"trunc{n}"},
                                **({"roots": ["cur"]} if kind == "roots" else {})))
-            for v in ("0", "-1", "+1", "2^31", "2^32", "2^63", "max", "max-295"):
+            for v in ("0", "-1", "+1", "2^31", "2^32", "2^63", "max", "max-295", "+2^32", "+2^40", "+2^63"):
                 if kind != "raw":
                     sc.append(dict({"c": "verify", "kind": kind, "msg": name, "mods": [{"m": "siglen", "v": v}], "tag": f"siglen{v}"},
                                    **({"roots": ["cur"]} if kind == "roots" else {})))
